@@ -8,7 +8,7 @@ extra = sys.argv[5:]
 wt = "/var/tmp/seedcheck-wt-%d" % os.getpid()
 env = dict(os.environ, GOFLAGS="-mod=mod", GOPROXY="off", GOSUMDB="off", GOTOOLCHAIN="local")
 def sh(cmd, cwd=None, e=env, timeout=3600):
-    return subprocess.run(cmd, cwd=cwd, env=e, capture_output=True, text=True, timeout=timeout)
+    return subprocess.run(cmd, cwd=cwd, env=e, capture_output=True, text=True, errors="replace", timeout=timeout)
 sh(["git", "-C", "/repo", "worktree", "add", "-q", "--detach", wt, "HEAD"])
 res = {"dir": sd}
 try:
